@@ -129,6 +129,11 @@ func (c *Csv[T]) ReadFromReader(reader io.Reader) <-chan *T {
 					continue
 				}
 
+				if column.ColumnIndex >= len(record) {
+					c.Logger.Error("Unable to set value.", "error", "row has fewer fields than columns")
+					return
+				}
+
 				err := setReflectValue(rowValue.Field(column.FieldIndex),
 					record[column.ColumnIndex], column.Format)
 				if err != nil {
